@@ -448,6 +448,15 @@ m("gs-memo", "global.state", B+"common/shuffle.go", "func PermuteIndex(rounds ui
 
 # lazy.init / lock.atomic positive cases are today's known findings (no mutant needed: they are violations on the tree)
 
+# equivalent mutants: the boundary these flips move is unreachable where the comparison stands (the equal case left the
+# function, or took another branch, just before) — cmp.spec reads such a comparison in its strict form either way
+_EQUIVALENT = {
+    ("eth2/forkchoice/proto/proto_array.go", "anchorIndex >= lookupIndex"),          # after `if anchorIndex == lookupIndex { return }`
+    ("eth2/forkchoice/proto/proto_array.go", "child.Weight >= bestChild.Weight"),    # else-branch of `child.Weight == bestChild.Weight`
+    ("eth2/beacon/phase0/voluntary_exit.go", "valExit > exitQueueEnd"),              # else-if after `valExit == exitQueueEnd`
+    ("eth2/forkchoice/proto/proto_array.go", "node.Ref.Slot < slot"),                # after `if node.Ref.Slot == slot { return }`
+}
+M = [x for x in M if not (x["rule"] == "cmp.spec" and (x["file"], x["old"]) in _EQUIVALENT)]
 M = [x for x in M if not x["expect"].startswith("XX")]
 json.dump(M, open("mutants.json", "w"), indent=1)
 print(len(M), "mutants")
